@@ -2,5 +2,5 @@
 From Coq Require Import Extraction ExtrOcamlBasic.
 From T38 Require Import Base.Bytes Model.Cursor.
 Extraction Language OCaml.
-Extraction "model.ml" Z.add Z.of_N Z.to_N Nat.add page pages unlimited eff_limit
+Extraction "model.ml" Z.add Z.of_N Z.to_N Nat.add page pages unlimited eff_limit count_query count_shortcut
   scan_page scan_range_page search_page search_range_page geo_page nearby_page.
